@@ -178,17 +178,19 @@ EXPLANATION["C14"] = ("One step of the interpreter on a symbolic stack: E2 execu
                       "(push_number, pop_number, push_bigint, pop_bigint, to_bigint, pop_bool, push_bool) for every claimed non-signature opcode, every stack depth 0..arity+1 and every "
                       "combination of operand lengths from the stated alphabet with ALL byte values symbolic, and compares the resulting main/alt stacks and the success/failure outcome "
                       "with a reference written from the Bitcoin SV opcode specification (QF_BV queries). num-bigint is modelled as 128-bit integers (mul/div/rem uninterpreted and shared "
-                      "with the reference). Conditionals, whole scripts, OP_LSHIFT/OP_RSHIFT, OP_2MUL/OP_2DIV, CLTV/CSV and operands longer than the alphabet are outside.")
+                      "with the reference; OP_LSHIFT/OP_RSHIFT are byte-string shifts). Plus c14_if_branch: which branch Interpreter::match_script_bit splices for OP_IF / OP_NOTIF for every truthiness class of the "
+                      "condition item. Arbitrary whole scripts, OP_2MUL/OP_2DIV, CLTV/CSV and operands longer than the alphabet are outside.")
 EXPLANATION["C16"] = ("Totality of one interpreter step: the same symbolic executions as C14, asking instead for ANY reachable panic (arithmetic overflow, slice/index bounds, unwrap, "
                       "division by zero, ...) in match_opcode and the stack codec for every claimed opcode, every depth 0..arity+1 and operand lengths of the alphabet; plus: after a failing "
-                      "Interpreter::match_script_bit step (opcodes and IF/NOTIF) the interpreter's main and alt stacks equal those before the step. Step-vs-run equivalence, termination of "
-                      "whole runs and ScriptBit::Coinbase (todo!()) are outside.")
+                      "Interpreter::match_script_bit step (opcodes and IF/NOTIF) the interpreter's main and alt stacks equal those before the step; c16_interp_tx_total: Interpreter::from_transaction for every "
+                      "input index and the signature-opcode step from states with out-of-range code-separator offsets / declared counts never panic; c16_step_vs_run: run_impl and repeated next_impl agree on "
+                      "ten short script shapes and the step sequence ends after a failing step. Arbitrary whole scripts and ScriptBit::Coinbase (todo!()) are outside.")
 import sys as _sys
 _OPS_STACK = ["OP_0", "OP_1NEGATE"] + [f"OP_{i}" for i in range(1, 17)] + ["OP_NOP", "OP_VERIFY", "OP_RETURN", "OP_TOALTSTACK", "OP_FROMALTSTACK", "OP_IFDUP", "OP_DEPTH", "OP_DROP", "OP_DUP", "OP_NIP",
               "OP_OVER", "OP_PICK", "OP_ROLL", "OP_ROT", "OP_SWAP", "OP_TUCK", "OP_2DROP", "OP_2DUP", "OP_3DUP", "OP_2OVER", "OP_2ROT", "OP_2SWAP"]
 _OPS_ARITH = ["OP_1ADD", "OP_1SUB", "OP_NEGATE", "OP_ABS", "OP_NOT", "OP_0NOTEQUAL", "OP_ADD", "OP_SUB", "OP_MUL", "OP_DIV", "OP_MOD", "OP_BOOLAND", "OP_BOOLOR", "OP_NUMEQUAL", "OP_NUMEQUALVERIFY",
               "OP_NUMNOTEQUAL", "OP_LESSTHAN", "OP_GREATERTHAN", "OP_LESSTHANOREQUAL", "OP_GREATERTHANOREQUAL", "OP_MIN", "OP_MAX", "OP_WITHIN"]
-_OPS_SPLICE = ["OP_CAT", "OP_SPLIT", "OP_NUM2BIN", "OP_BIN2NUM", "OP_SIZE", "OP_INVERT", "OP_AND", "OP_OR", "OP_XOR", "OP_EQUAL", "OP_EQUALVERIFY", "OP_RIPEMD160", "OP_SHA1", "OP_SHA256", "OP_HASH160",
+_OPS_SPLICE = ["OP_CAT", "OP_SPLIT", "OP_NUM2BIN", "OP_BIN2NUM", "OP_SIZE", "OP_INVERT", "OP_AND", "OP_OR", "OP_XOR", "OP_LSHIFT", "OP_RSHIFT", "OP_EQUAL", "OP_EQUALVERIFY", "OP_RIPEMD160", "OP_SHA1", "OP_SHA256", "OP_HASH160",
                "OP_HASH256", "OP_CODESEPARATOR", "OP_NOP1", "OP_NOP4", "OP_NOP5", "OP_NOP6", "OP_NOP7", "OP_NOP8", "OP_NOP9", "OP_NOP10", "OP_VER", "OP_VERIF", "OP_VERNOTIF", "OP_RESERVED", "OP_RESERVED1", "OP_RESERVED2"]
 INTERP_FUNCS = ["Interpreter::match_opcode (+closures)", "ScriptStack for Vec<Vec<u8>>: push_number/pop_number/push_bigint/pop_bigint/push_bool/pop_bool/push_bytes/pop_bytes", "stack_trait::to_bigint", "Interpreter::verify"]
 INTERP_STUBS = ("E2: num_bigint::BigInt is a 128-bit two's-complement bit-vector (from/to bytes, add, sub, neg, comparisons exact; mul/div/rem uninterpreted functions shared with the reference; shifts <= 40)",
